@@ -1,6 +1,7 @@
 -- Root of the `Walrus` library: every model, proof and property module.
 import Walrus.Props.C03
 import Walrus.Props.C04
+import Walrus.Props.C05
 import Walrus.Props.C08
 import Walrus.Props.C09
 import Walrus.Props.C10
